@@ -17,7 +17,8 @@ ASSUMPTIONS = ['a ValueError from construction or search is an accepted outcome 
 
 def strategy(tier):
   big = 6 if tier == 'quick' else 8
-  return st.one_of(G.search_spec(max_geos=big, min_geos=2, constraint_p=0.4),
+  return st.one_of(G.search_spec(max_geos=big, min_geos=2, constraint_p=0.4, flat=True),
+                   G.search_spec(max_geos=big, min_geos=3, constraint_p=0.2, elig_style='fixed-heavy', flat=True),
                    G.search_spec(max_geos=big, min_geos=3, constraint_p=0.25, elig_style='mixed'),
                    G.search_spec(max_geos=big, min_geos=3, constraint_p=0.3, elig_style='fixed-heavy'))
 
@@ -58,6 +59,8 @@ def run(spec):
     except Exception as e:  # pylint: disable=broad-except
       from vmm import core
       viol.append((core.crash_kind('C01', e), dict(det, exc=str(e)[:200])))
+  if spec['panel'].get('flat'):
+    cls.append('flat-geo')
   if sp.par.n_geos_max is not None and len(sp.adm_before_cap) > sp.par.n_geos_max:
     cls.append('n_geos_max-bites')
     if sp.cap_cuts_must:
